@@ -1,5 +1,6 @@
 use std::collections::HashSet;
 use std::hash::Hash;
+use std::io;
 #[cfg(feature = "gssapi")]
 use std::sync::RwLock;
 use std::sync::{Arc, Mutex};
@@ -218,7 +219,13 @@ impl Ldap {
         } else {
             rx.await
         }?;
-        let (ldap_ext, controls) = (LdapResultExt::from(response.0), response.1);
+        let ldap_ext = LdapResultExt::try_from_tag(response.0).ok_or_else(|| {
+            LdapError::from(io::Error::new(
+                io::ErrorKind::InvalidData,
+                "malformed result in the response",
+            ))
+        })?;
+        let controls = response.1;
         let (mut result, exop, sasl_creds) = (ldap_ext.0, ldap_ext.1, ldap_ext.2);
         result.ctrls = controls;
         Ok((result, exop, sasl_creds))
